@@ -100,10 +100,63 @@ func RunWorker(id, tier string, shard, nshards int, outPath string) error {
 	syscall.Setrlimit(syscall.RLIMIT_AS, &lim)
 	out := workerOut{Phases: map[string]*Stats{}}
 	hashes := map[string][2][]uint64{}
+	InitProgress(outPath + ".progress")
+	initJournal(outPath + ".viol")
+	writeOut := func() error {
+		f, err := os.Create(outPath + ".tmp")
+		if err != nil {
+			return err
+		}
+		if err := json.NewEncoder(f).Encode(out); err != nil {
+			// never lose violations to an encoding problem: retry with details and samples flattened to strings
+			for _, st := range out.Phases {
+				for i := range st.Violations {
+					st.Violations[i].Detail = map[string]any{"detail": fmt.Sprint(st.Violations[i].Detail)}
+				}
+				for i := range st.Samples {
+					st.Samples[i] = fmt.Sprint(st.Samples[i])
+				}
+			}
+			f.Close()
+			if f, err = os.Create(outPath + ".tmp"); err != nil {
+				return err
+			}
+			if err := json.NewEncoder(f).Encode(out); err != nil {
+				return err
+			}
+		}
+		f.Close()
+		// side file with the hash sets so the coordinator can count distinct
+		// outcomes / non-trivial cases across shards exactly
+		if err := os.Rename(outPath+".tmp", outPath); err != nil {
+			return err
+		}
+		hf, err := os.Create(outPath + ".h")
+		if err != nil {
+			return err
+		}
+		w := bufio.NewWriter(hf)
+		names := make([]string, 0, len(hashes))
+		for k := range hashes {
+			names = append(names, k)
+		}
+		sort.Strings(names)
+		for _, name := range names {
+			for which := 0; which < 2; which++ {
+				fmt.Fprintf(w, "%s %d %d\n", name, which, len(hashes[name][which]))
+				for _, v := range hashes[name][which] {
+					binary.Write(w, binary.LittleEndian, v)
+				}
+			}
+		}
+		w.Flush()
+		return hf.Close()
+	}
 	for _, ph := range ck.Phases(tier) {
 		if ph.Serial && shard != 0 {
 			continue
 		}
+		progressPhase(ph.Name)
 		b := ph.Budget
 		if b == 0 {
 			b = defaultBudget(tier)
@@ -213,52 +266,12 @@ func RunWorker(id, tier string, shard, nshards int, outPath string) error {
 			n = append(n, k)
 		}
 		hashes[ph.Name] = [2][]uint64{o, n}
-	}
-	f, err := os.Create(outPath)
-	if err != nil {
-		return err
-	}
-	if err := json.NewEncoder(f).Encode(out); err != nil {
-		// never lose violations to an encoding problem: retry with details and samples flattened to strings
-		for _, st := range out.Phases {
-			for i := range st.Violations {
-				st.Violations[i].Detail = map[string]any{"detail": fmt.Sprint(st.Violations[i].Detail)}
-			}
-			for i := range st.Samples {
-				st.Samples[i] = fmt.Sprint(st.Samples[i])
-			}
-		}
-		f.Close()
-		if f, err = os.Create(outPath); err != nil {
-			return err
-		}
-		if err := json.NewEncoder(f).Encode(out); err != nil {
+		// what is finished is on disk before the next phase starts: a worker that dies later loses only that phase
+		if err := writeOut(); err != nil {
 			return err
 		}
 	}
-	f.Close()
-	// side file with the hash sets so the coordinator can count distinct
-	// outcomes / non-trivial cases across shards exactly
-	hf, err := os.Create(outPath + ".h")
-	if err != nil {
-		return err
-	}
-	w := bufio.NewWriter(hf)
-	names := make([]string, 0, len(hashes))
-	for k := range hashes {
-		names = append(names, k)
-	}
-	sort.Strings(names)
-	for _, name := range names {
-		for which := 0; which < 2; which++ {
-			fmt.Fprintf(w, "%s %d %d\n", name, which, len(hashes[name][which]))
-			for _, v := range hashes[name][which] {
-				binary.Write(w, binary.LittleEndian, v)
-			}
-		}
-	}
-	w.Flush()
-	return hf.Close()
+	return writeOut()
 }
 
 func readHashes(path string, into map[string]*[2]map[uint64]struct{}) error {
@@ -395,6 +408,7 @@ func RunCheck(id, tier string, nworkers int) int {
 	merged := map[string]*Stats{}
 	hashes := map[string]*[2]map[uint64]struct{}{}
 	var workerFailures []string
+	var lone []Violation
 	infraErr := false
 	for w := 0; w < nworkers; w++ {
 		if results[w].err != nil {
@@ -403,15 +417,27 @@ func RunCheck(id, tier string, nworkers int) int {
 			if strings.Contains(results[w].tail, "engine:") {
 				infraErr = true
 			}
-			continue
-		}
-		b, err := os.ReadFile(filepath.Join(tmp, fmt.Sprintf("w%d.json", w)))
-		if err != nil {
-			workerFailures = append(workerFailures, fmt.Sprintf("worker %d: %v", w, err))
-			continue
+			// the execution the worker was in when it died or gave up is decided alone in a fresh process
+			if phase, prefix, stuck := readProgress(filepath.Join(tmp, fmt.Sprintf("w%d.json.progress", w))); phase != "" {
+				if how := decideLoneExecution(self, id, tier, phase, prefix); how != "" {
+					lone = append(lone, Violation{Property: id, Sig: fmt.Sprintf("%s:%s:operation-does-not-return[%s]", id, phase, how), Choices: prefix,
+						Detail: map[string]any{"phase": phase, "worker": fmt.Sprintf("%d/%d", w, nworkers), "worker_gave_up_after_exec_limit": stuck,
+							"confirmation": "the execution was run again, alone, in a fresh process with twice the limit (twice if the process died) and did not return"}})
+				} else {
+					workerFailures = append(workerFailures, fmt.Sprintf("worker %d: the execution it was in (phase %s, prefix %v) returns when run alone: no verdict", w, phase, prefix))
+				}
+			}
+			// what the worker had finished before is still used
 		}
 		var wo workerOut
-		if err := json.Unmarshal(b, &wo); err != nil {
+		b, err := os.ReadFile(filepath.Join(tmp, fmt.Sprintf("w%d.json", w)))
+		if err != nil {
+			if results[w].err == nil {
+				workerFailures = append(workerFailures, fmt.Sprintf("worker %d: %v", w, err))
+				continue
+			}
+			wo = workerOut{Phases: map[string]*Stats{}} // died during its first phase
+		} else if err := json.Unmarshal(b, &wo); err != nil {
 			workerFailures = append(workerFailures, fmt.Sprintf("worker %d: %v", w, err))
 			continue
 		}
@@ -425,6 +451,27 @@ func RunCheck(id, tier string, nworkers int) int {
 				merged[name] = m
 			}
 			mergeStats(m, st)
+		}
+		if results[w].err != nil {
+			// violations the worker found in the phase it did not finish
+			for name, vs := range readJournal(filepath.Join(tmp, fmt.Sprintf("w%d.json.viol", w)), wo.Phases) {
+				m := merged[name]
+				if m == nil {
+					m = newStats()
+					merged[name] = m
+				}
+				m.Exhaustive = false
+				for _, v := range vs {
+					if v.Detail == nil {
+						v.Detail = map[string]any{}
+					}
+					v.Detail["phase"] = name
+					v.Detail["worker"] = fmt.Sprintf("%d/%d (the worker did not finish this phase)", w, nworkers)
+					m.ViolationN++
+					m.SigCounts[v.Sig]++
+					m.Violations = append(m.Violations, v)
+				}
+			}
 		}
 	}
 	_ = infraErr
@@ -552,6 +599,13 @@ func RunCheck(id, tier string, nworkers int) int {
 			}
 			unknown = append(unknown, confirmed)
 		}
+	}
+	for _, v := range lone {
+		if _, ok := knownBySig[v.Sig]; ok {
+			knownSeen[v.Sig]++
+			continue
+		}
+		unknown = append(unknown, v)
 	}
 	sort.Slice(unknown, func(i, j int) bool { return unknown[i].Sig < unknown[j].Sig })
 
@@ -818,6 +872,15 @@ func RunReplay(path string) int {
 			continue
 		}
 		var vs []Violation
+		if strings.Contains(r.Violation.Sig, ":operation-does-not-return[") {
+			self, _ := os.Executable()
+			if how := decideLoneExecution(self, r.Property, r.Tier, name, r.Violation.Choices); how != "" {
+				fmt.Printf("VIOLATION property=%s replay=%s\n  sig=%s\n  detail=the execution did not return when run alone in a fresh process (%s)\n", r.Property, path, r.Violation.Sig, how)
+				return 1
+			}
+			fmt.Printf("replay of %s: the execution returns on the current tree\n", path)
+			return 0
+		}
 		if ph.Body != nil {
 			ex := NewExplorer(r.Property, ph.Body, ph.Bounds, 0, 1, 1)
 			runs := 2
